@@ -27,6 +27,7 @@ META["claim"] += " " + "Also: servers that never answer the client's close frame
 META["claim"] += " " + "Round 4: runs that reconnected (with keepalive) before ending through the server's close frame - no ping thread of the lost connection survives; mute and closing servers over the simulated TLS transport (whose unwrap() waits for a close_notify a silent peer never sends)."
 META["claim"] += " " + "Round 5: a process-wide setReconnect() in force while the run passes reconnect=0; a KeyboardInterrupt striking inside the library's own closing handshake during teardown (raised by the key source)."
 META["claim"] += " " + 'Rounds 6-7: descriptor 0 and bytearray transports (ambient); a server close frame between the fragments of a message; close() from another thread against a peer that never answers while the loop is woken by a short ping timeout or late data; no transport open at the moment run_forever() returns (built-in loop).'
+META["claim"] += " " + "Round 8: close(timeout=0 / 0.5) from callbacks against a mute server; KeyboardInterrupt in on_close after the application's own close(); close() from another thread while the loop is blocked in the middle of a frame (known finding)."
 
 HORIZON = 400.0
 
